@@ -34,6 +34,7 @@ func init() {
 		"implies":      func(in *Interp, fn *ssa.Function, a []Value) Value { return tImplies(a[0].(Term), a[1].(Term)) },
 		"not":          func(in *Interp, fn *ssa.Function, a []Value) Value { return tNot(a[0].(Term)) },
 		"iteU32":       func(in *Interp, fn *ssa.Function, a []Value) Value { return tIte(a[0].(Term), a[1].(Term), a[2].(Term)) },
+		"iteU64":       func(in *Interp, fn *ssa.Function, a []Value) Value { return tIte(a[0].(Term), a[1].(Term), a[2].(Term)) },
 		"iteStr":       func(in *Interp, fn *ssa.Function, a []Value) Value { return tIte(a[0].(Term), a[1].(Term), a[2].(Term)) },
 		"mapPutIf":     pMapPutIf,
 		"mapHas":       pMapHas,
